@@ -344,6 +344,31 @@ pub fn outcome_json(o: &Outcome) -> Value {
     })
 }
 
+/// at most `cap` lists: all single arguments' worth is kept in proportion, pairs of mutual attackers first (disjunctions that are
+/// accepted while neither member is), then a seeded sample of the others
+fn sample_lists(all: Vec<Vec<usize>>, af: &AAFramework<usize>, cap: usize, seed: u64) -> Vec<Vec<usize>> {
+    if cap == 0 || all.len() <= cap {
+        return all;
+    }
+    use rand::seq::SliceRandom;
+    use rand::SeedableRng;
+    let mut rng = rand::rngs::StdRng::seed_from_u64(seed);
+    let mutual = |v: &Vec<usize>| {
+        v.len() == 2 && v[0] != v[1] && {
+            let a = af.argument_set().get_argument(&v[0]).unwrap();
+            let b = af.argument_set().get_argument(&v[1]).unwrap();
+            af.iter_attacks_from(a).any(|t| t.attacked().id() == b.id()) && af.iter_attacks_from(b).any(|t| t.attacked().id() == a.id())
+        }
+    };
+    let (mut first, mut rest): (Vec<Vec<usize>>, Vec<Vec<usize>>) = all.into_iter().partition(|v| mutual(v));
+    first.shuffle(&mut rng);
+    rest.shuffle(&mut rng);
+    first.truncate(cap / 2);
+    let k = cap - first.len();
+    first.extend(rest.into_iter().take(k));
+    first
+}
+
 fn arg_lists(labels: &[usize], k: usize) -> Vec<Vec<usize>> {
     let mut res: Vec<Vec<usize>> = labels.iter().map(|l| vec![*l]).collect();
     let mut last = res.clone();
@@ -518,6 +543,7 @@ pub fn cmd_static(a: &Args) {
     let fault = a.get("fault", "no") == "yes";
     let failing = a.get("failing", "no") == "yes";
     let with_agree = a.get("agree", "no") == "yes";
+    let listsample = a.num("listsample", 0);
     // C16/C17: the exchange with an external solver process fails at one SAT-call position (fakesat failat:K:<submode>)
     let procfault = a.get("procfault", "");
     let fakesat = a.get("fakesat", "");
@@ -562,7 +588,7 @@ pub fn cmd_static(a: &Args) {
                     continue; // range-based semantics are not directional
                 }
                 for kind in &kinds {
-                    let qargs: Vec<Vec<usize>> = if kind == "SE" { vec![vec![]] } else { arg_lists(&labels, lists) };
+                    let qargs: Vec<Vec<usize>> = if kind == "SE" { vec![vec![]] } else { sample_lists(arg_lists(&labels, lists), &af, listsample, pseed) };
                     let encs: Vec<&str> = if enc_mode == "all" { encoders_for(sem, kind) } else { vec![encoders_for(sem, kind)[0]] };
                     for qa in &qargs {
                         // C06: the statuses obtained for this query over encoders x certificate flag x explored SAT-model schedules
